@@ -151,10 +151,34 @@ def main(tier, seed):
                         else:
                             chk.validated += 1
                 chk.log('%d import structures over %d modules (%s): %d answers, %d structures with a panicking answer so far' % (len(st), n, 'all' if limit is None else 'z3 models with a cycle, seeded', nans, nbadws))
+            # single-token damage of well-formed template programs (syntactically broken / ill-typed workspaces)
+            from . import brokk
+            djobs = []
+            for label, ws, idx in brokk.workspaces():
+                for key, text in brokk.variants(ws['files'][idx]['text']):
+                    djobs.append((label, ws, idx, key, text))
+            ndam = ndbad = 0
+
+            def dprobe(job):
+                if not hasattr(tl, 'o'):
+                    tl.o = native.Oracle(binary); pool_oracles.append(tl.o)
+                return brokk.probe(tl.o, job[1], job[2], job[4])
+            with ThreadPoolExecutor(max_workers=jobs) as ex:
+                for job, (bad, na) in zip(djobs, ex.map(dprobe, djobs)):
+                    ndam += 1; nans += na
+                    if bad:
+                        ndbad += 1
+                        if ndbad <= 3:
+                            s_, e_, rep = job[3]
+                            chk.violation('broken-program:panic', 'enumerated', '%s with the token at %d..%d replaced by %r: the answers %s panic; text %r' % (job[0], s_, e_, rep, bad[:4], job[4][:300]),
+                                          {'kind': 'damage', 'label': job[0], 'file_index': job[2], 'text': job[4]}, confirmed=True)
+                    else:
+                        chk.validated += 1
+            chk.log('%d single-token damages of the template programs: %d with a panicking answer' % (ndam, ndbad))
         finally:
             for o in pool_oracles:
                 o.close()
-        chk.extra['imports'] = {'structures': nst, 'answers': nans, 'structures_with_panic': nbadws}
+        chk.extra['imports'] = {'structures': nst, 'answers': nans, 'structures_with_panic': nbadws, 'damaged_programs': ndam, 'damaged_programs_with_panic': ndbad}
         seen = set()
         for v in found:
             key = v['why'][0][:70]
@@ -181,6 +205,7 @@ def main(tier, seed):
         'kernel claim: the fourth anchored mechanism only (the placeholder that keeps occurs-free unification finite): unify / try_unify_var / Collector::collect return without panic, unbounded recursion (call depth > 400) or an emptied table slot on every table of up to %d variables whose entries (Unknown, Int, List, Tuple, Function, Result with arbitrary, also self-referential, children) are chosen by the solver' % c09.BOUNDS[tier]['tables'],
         'side tables: InferCtx::infer_expr on case expressions with 1-2 subjects and 1-3 clause patterns built as arena data must leave a type entry for every pattern and expression (InferenceResult indexes these maps); alias expansion: make_ty_from_typeref over every alias graph of <= 2 (thorough 3) aliases must return (call depth <= 400)',
         'documentation kernel: syntax::ast::HasDocParts::doc_text (the per-token closure, real MIR) on a comment token whose kind is symbolic and whose text is its slashes + <= 3 (thorough 5) symbolic bytes of valid UTF-8 without a line break: no panic, nothing but the bytes after the slashes is kept; findings replayed by hover on a documented constant',
+        'native layer (executed): every single-token damage (token deleted, doubled, or replaced by one of 7 hostile spellings) of 15 module texts of the template workspaces, analysed inside its workspace: every public query at every identifier answers without panic',
         'native layer (executed, not a solver verdict): every import structure over 2 modules (4 modes per ordered pair, a module importing itself included: 256) and z3-chosen (quick: 2500 with a cycle) / all 262144 (thorough) structures over 3 modules; '
         'go-to-definition, references, highlight, hover, completion, prepare-rename at every identifier, diagnostics and semantic highlighting per file must answer without panic; plus hover at every offset of a corpus of lowering corner cases (tuple indices that do not fit usize)',
         'every other part of the property (all queries x all offsets x arbitrary broken workspaces) needs the salsa database and is outside the solver-decided claim',
